@@ -205,6 +205,26 @@ check("C11", "model_checking",
       "TLC-enumerated complexes / forests replayed into the real code and judged by TLC against TLA+ definitions",
       "DESIGN.md §5 C11")
 
+check("C10", "model_checking",
+      "MeshSurgery.tla is an abstract model of the library's elementary surgery steps on closed oriented manifold complexes "
+      "- face split, edge split, edge flip, edge collapse - with the guards the code applies (canEliminateSegment's "
+      "duplicate-face test + link condition, FlipDelaunay's existing-edge test; geometric tests are free booleans); TLC "
+      "checks for every behaviour of depth <= 5 (6) from a tetrahedron / octahedron with <= 7 (8) vertices that closed + "
+      "manifold + oriented + Euler characteristic are invariant (with the guards the code had before the repairs it "
+      "refutes this in 4 steps). TLC (OpsGen) enumerates every chain of <= 2 operations out of 20 (3-D) / 8 (2-D) on an "
+      "11-mesh (6-mesh) palette - subdivided boxes with coplanar runs, voxel shapes, thin boxes, icosphere, torus, two "
+      "components, pixel outlines with a hole; the real operations run with a deadline and SurgeryJudge checks on the "
+      "abstract result of every step: closed, manifold, oriented, same Euler characteristic and component count, no new "
+      "vertices under decimation / elimination / flipping, keep-filters, exact area and volume for shape-preserving "
+      "operations on lattice meshes, placement rules (blur 0 / 1, edge midpoints, Loop masks, corner cutting), ARAP "
+      "constraints met bit-exactly (also through a re-used SeqDeformer) and rigid motions reproduced.",
+      "Trusted: TLC; vertex identity = exact coordinates; placement rules, exact area/volume and the ARAP tolerance (1e-5, "
+      "well-shaped palette meshes only) are decided by the harness and handed to TLC as booleans. Steps in which a "
+      "vertex-moving operation puts two vertices on the same coordinates (e.g. SmoothSq collapsing a square) are undecided. "
+      "Quick tier samples 300 + 150 of the two-operation chains (thorough: all). Quality of results is not covered.",
+      "TLA+ model checking of abstract surgery (TLC) + TLC-enumerated operation chains replayed into the real code and judged by TLC",
+      "DESIGN.md §5 C10")
+
 _pending = "check not built yet in this session (planned, see DESIGN.md §10)"
 for pid in ["C01","C02","C03","C04","C05","C06","C07","C08","C10","C11","C12","C13","C14","C15","C16","C17","C18","C20"]:
     if pid not in CHECKS:
